@@ -188,6 +188,10 @@ std::string AttributesTools::removeComments(
     const std::string& begin,
     const std::string& end)
 {
+  // A mark that starts with the other one (an empty mark, twice the same mark) would be found
+  // where the comment begins: nothing is erased and the search starts again at the same place.
+  if (begin.compare(0, end.size(), end) == 0 || end.compare(0, begin.size(), begin) == 0)
+    throw Exception("AttributesTools::removeComments. The comment marks '" + begin + "' and '" + end + "' must not start with one another.");
   string r = s;
   string::size_type last = 0;
   do
